@@ -3,7 +3,7 @@
    criteria [cs] and in-memory id counters [a]; the shipped criteria are the definitions
    regenerated from gffutils/merge_criteria.py on every run (Gen/GenCriteria.v). *)
 From GV Require Import Base.Prelude Base.PyStr Model.Bins Model.DB Model.Parser Model.Query Model.Import Model.Merge
-  Gen.GenLib Gen.GenCriteria Proofs.C16Proofs Proofs.C16Union.
+  Gen.GenLib Gen.GenCriteria Proofs.C16Proofs Proofs.C16Union Proofs.C16Classes.
 Open Scope Z_scope.
 
 (* every input is yielded unchanged (no children) or is a child of exactly one merged output, in
@@ -59,3 +59,33 @@ Theorem C16_children_bp_union : forall sK tK fK, ~ In COMMAc sK -> forall kids l
   children_bp true default_criteria kids = zcount (in_kids kids) lo hi.
 Proof. exact l_children_bp_union. Qed.
 Print Assumptions C16_children_bp_union.
+
+(* "... per seqid, strand and type": inputs of SEVERAL classes.  [group fs] cuts the input at every change of
+   (seqid, strand, featuretype); for ANY input of well-formed features (seqid without a comma, start <= end) whose
+   stretches are each in start order, the outputs are - stretch by stretch, in order - a partition of the stretch
+   into its maximal runs of overlapping or adjacent intervals (consecutive outputs separated by an uncovered base,
+   every position of an output covered by a member).  Nothing is ever joined across a change of class. *)
+Theorem C16_default_runs_per_class : forall fs a, (forall f, In f fs -> wf f) -> Forall start_sorted (group fs) ->
+  exists outss, fst (merge default_criteria fs a) = concat outss /\
+    Forall2 (fun b outs => flat_map members outs = b /\ sep outs /\ Forall out_covered outs) (group fs) outss.
+Proof. exact l_default_runs_per_class. Qed.
+Print Assumptions C16_default_runs_per_class.
+
+(* the same as an equation: merge() of the whole input = merge() of the stretches one after the other (ids included,
+   the counters running through) *)
+Theorem C16_merge_splits_at_class_changes : forall blocks a, Forall block_ok blocks -> adjacent_differ blocks ->
+  merge default_criteria (concat blocks) a =
+  (concat (fst (merge_blocks default_criteria blocks a)), snd (merge_blocks default_criteria blocks a)).
+Proof. exact l_merge_blocks. Qed.
+Print Assumptions C16_merge_splits_at_class_changes.
+
+(* when the input is sorted by class first - under any antisymmetric order R on classes, e.g. merge_all's
+   ORDER BY seqid, featuretype, strand, start - every class is ONE stretch (so "per class" above is global), and start
+   order among consecutive features of one class makes every stretch start-sorted.  F19 (known finding) is the case
+   where children_bp sorts by start only and a class comes back. *)
+Theorem C16_sorted_input_one_stretch_per_class : forall (R : str * str * str -> str * str * str -> Prop) fs,
+  (forall a b, R a b -> R b a -> a = b) ->
+  Sorted.StronglySorted R (map (fun f => class_of (mi_v f)) fs) -> class_start_chain fs ->
+  NoDup (map block_class (group fs)) /\ Forall start_sorted (group fs).
+Proof. exact l_sorted_one_stretch. Qed.
+Print Assumptions C16_sorted_input_one_stretch_per_class.
